@@ -1,11 +1,17 @@
 (* HashKey.v -- the cache key of a target, as internal/hashing computes it
    (hash_target.go, hash_files.go, get_hasher.go).  Model only.
 
-   GetTargetChangeHash(target, depHashes):
-     def  := H( label.String() ++ command ++ join(",", sort inputs) ++ join(",", sort outputDefs)
-               ++ join(",", sort depHashes) ++ join(",", sort ["k=v"...]) ++ [platform unless multiplatform-cache] )
+   framed(s)   := s with every NUL byte escaped as NUL 0x01, then the terminator NUL NUL
+   list(items) := for each (self-delimiting) item: 0x02 item; then 0x03
+   GetTargetChangeHash(target, depContribs):
+     def  := H( framed(label.Package) ++ framed(label.Name) ++ framed(command)
+               ++ list(map framed (sort inputs)) ++ list(map framed (sort outputDefs))
+               ++ list(map framed (sort depContribs))
+               ++ list(sort [framed(k) ++ framed(v) ...])
+               ++ list([framed(platform)] unless multiplatform-cache, else []) )
      key  := def                          if len(inputs) = 0
-           | def ++ "_" ++ H(concat [content f | f <- sort inputs, f exists])   otherwise
+           | def ++ "_" ++ H(concat [ framed(f) ++ (0x00 if f does not exist
+                                                   | 0x01 ++ framed(H(content f))) | f <- sort inputs ])   otherwise
    The digest function H is a parameter (xxh3-128 / sha256 printed as hex). *)
 From Coq Require Export Sorting.Permutation.
 From Grog Require Export Str Label.
@@ -15,43 +21,57 @@ Record tstate := mkT {
   ts_cmd   : str;
   ts_ins   : list str;            (* resolved input paths, relative to the package *)
   ts_outs  : list str;            (* output definitions "type::identifier", bin output included *)
-  ts_deps  : list str;            (* output hashes of the dependencies ("" for an alias in-edge) *)
+  ts_deps  : list str;            (* contributions of the dependencies, "<label>=<output hash>" *)
   ts_fp    : list (str * str);    (* fingerprint map entries *)
   ts_plat  : option str           (* Some "os/arch", None for multiplatform-cache targets *)
 }.
 
-Definition comma : str := [ch_comma].
+Definition ch_nul : ascii := Ascii.zero.
+Definition ch_01  : ascii := ascii_of_nat 1.
+Definition ch_02  : ascii := ascii_of_nat 2.
+Definition ch_03  : ascii := ascii_of_nat 3.
 
-Definition kv (e : str * str) : str := fst e ++ ch_eq :: snd e.
+(* framed(s): strings.ReplaceAll(s, "\x00", "\x00\x01") + "\x00\x00" *)
+Fixpoint frame (s : str) : str :=
+  match s with
+  | [] => [ch_nul; ch_nul]
+  | c :: r => if Ascii.eqb c ch_nul then ch_nul :: ch_01 :: frame r else c :: frame r
+  end.
 
-Definition plat_str (p : option str) : str := match p with Some s => s | None => [] end.
+(* list(elements): every element behind 0x02, then 0x03 *)
+Fixpoint enc_items (items : list str) : str :=
+  match items with
+  | [] => [ch_03]
+  | e :: r => ch_02 :: e ++ enc_items r
+  end.
 
-(* the seven strings written to the hasher, in order *)
-Definition comps (st : tstate) : list str :=
-  [ print_label (ts_label st);
-    ts_cmd st;
-    join comma (sort_strs (ts_ins st));
-    join comma (sort_strs (ts_outs st));
-    join comma (sort_strs (ts_deps st));
-    join comma (sort_strs (map kv (ts_fp st)));
-    plat_str (ts_plat st) ].
+Definition enc_list (l : list str) : str := enc_items (map frame l).
 
-Definition encode_def (st : tstate) : str := concat (comps st).
+Definition fp_item (e : str * str) : str := frame (fst e) ++ frame (snd e).
 
-(* the file system as seen by HashFiles: None = the file does not exist (skipped) *)
-Definition file_bytes (fs : str -> option str) (p : str) : str :=
-  match fs p with Some c => c | None => [] end.
+Definition plat_list (p : option str) : list str := match p with Some s => [s] | None => [] end.
 
-Definition file_parts (fs : str -> option str) (st : tstate) : list str :=
-  map (file_bytes fs) (sort_strs (ts_ins st)).
+Definition enc_label (l : label) : str := frame (lpkg l) ++ frame (lname l).
 
-Definition encode_files (fs : str -> option str) (st : tstate) : str := concat (file_parts fs st).
+(* the bytes written to the definition hasher *)
+Definition encode_def (st : tstate) : str :=
+  enc_label (ts_label st) ++ frame (ts_cmd st) ++
+  enc_list (sort_strs (ts_ins st)) ++ enc_list (sort_strs (ts_outs st)) ++
+  enc_list (sort_strs (ts_deps st)) ++ enc_items (sort_strs (map fp_item (ts_fp st))) ++
+  enc_list (plat_list (ts_plat st)).
+
+(* the file system as seen by hashInputFiles: None = the file does not exist *)
+Definition file_item (H : str -> str) (fs : str -> option str) (p : str) : str :=
+  frame p ++ match fs p with None => [ch_nul] | Some c => ch_01 :: frame (H c) end.
+
+Definition encode_files (H : str -> str) (fs : str -> option str) (st : tstate) : str :=
+  concat (map (file_item H fs) (sort_strs (ts_ins st))).
 
 Definition no_inputs (st : tstate) : bool := match ts_ins st with [] => true | _ => false end.
 
 Definition change_key (H : str -> str) (fs : str -> option str) (st : tstate) : str :=
   if no_inputs st then H (encode_def st)
-  else H (encode_def st) ++ ch_us :: H (encode_files fs st).
+  else H (encode_def st) ++ ch_us :: H (encode_files H fs st).
 
 (* "the same build state": equal up to declaration / glob / map-iteration order *)
 Definition state_equiv (fa : str -> option str) (a : tstate) (fb : str -> option str) (b : tstate) : Prop :=
@@ -61,24 +81,7 @@ Definition state_equiv (fa : str -> option str) (a : tstate) (fb : str -> option
   ts_plat a = ts_plat b /\
   (forall p, In p (ts_ins a) -> fa p = fb p).
 
-(* element-level well-formedness: what makes join/sort and k=v decodable *)
-Definition elem_ok (s : str) : bool := negb (null s) && negb (mem_ch ch_comma s).
-Definition fp_ok (e : str * str) : bool :=
-  negb (mem_ch ch_comma (fst e)) && negb (mem_ch ch_eq (fst e)) && negb (mem_ch ch_comma (snd e)).
-
-Definition wf_state (st : tstate) : bool :=
-  negb (mem_ch ch_colon (lpkg (ts_label st))) &&
-  forallb elem_ok (ts_ins st) && forallb elem_ok (ts_outs st) && forallb elem_ok (ts_deps st) &&
-  forallb fp_ok (ts_fp st) &&
-  match ts_plat st with Some [] => false | _ => true end.
-
-(* the two states differ in at most one of the seven written strings *)
-Definition differ_at_most_one (l l' : list str) : Prop :=
-  exists k, forall i, i <> k -> nth_error l i = nth_error l' i.
-
-(* the file contents differ for at most one input path, which exists on both sides or on neither *)
-Definition files_differ_at_most_one (fa fb : str -> option str) (ins : list str) : Prop :=
-  exists p, (forall q, In q ins -> q <> p -> fa q = fb q) /\ (fa p = None <-> fb p = None).
+Definition comma : str := [ch_comma].
 
 (* output hash of a target with outputs (get_output_hash.go): H over the sorted digests of the
    marshalled outputs, written back to back *)
